@@ -66,4 +66,27 @@ def dispatchOk (readerRows writerRows : List DispatchRow) : Bool :=
   && writerRows == allTriples.map (fun (k, f, o) =>
     ⟨k.pyName, f, o, (getWriter k f o).toOption.map PrimW.pyName⟩)
 
+/-! ## the implicit defaults of the primitive Python types (`get_implicit_default`) -/
+
+/-- one observation: the default the code gives for a leaf type (`none`: it raised) -/
+structure ImplicitRow where
+  base : PyBase
+  isSub : Bool          -- queried with a subclass of the primitive type (as `entityType` produces)
+  dflt : Option Value
+
+def optValueBeq : Option Value → Option Value → Bool
+  | some a, some b => a.beq b
+  | none, none => true
+  | _, _ => false
+
+def allPyBases : List PyBase :=
+  [.i8, .i16, .i32, .i64, .u8, .u16, .u32, .u64, .f64, .str, .bytes, .records, .uuid, .bool,
+   .errorCode, .i32Timedelta, .i64Timedelta, .tzAware]
+
+/-- one row per primitive type (plain and subclassed where Python allows subclassing), in order,
+    each agreeing with `implicitDefault` -/
+def implicitOk (env : Env) (rows : List ImplicitRow) : Bool :=
+  rows.map (·.base) == allPyBases.flatMap (fun b => [b, b])
+  && rows.all (fun r => optValueBeq ((implicitDefault env ⟨r.base, r.isSub⟩).toOption) r.dflt)
+
 end Kio
